@@ -29,6 +29,8 @@ type Job struct {
 	LoopCap   int               `json:"loop_cap,omitempty"`
 	TimeoutMs int               `json:"timeout_ms,omitempty"`
 	MaxViol   int               `json:"max_violations,omitempty"`
+	MaxSec    int               `json:"max_seconds,omitempty"`
+	UFMul     bool              `json:"uf_mul,omitempty"`
 	Solver    []string          `json:"solver,omitempty"`
 }
 
@@ -58,6 +60,7 @@ type JobResult struct {
 	Unreached      []string                 `json:"unreached_blocks,omitempty"`
 	Samples        []map[string]interface{} `json:"samples"`
 	SolverErrors   []string                 `json:"solver_errors,omitempty"`
+	QKinds         map[string]int           `json:"query_kinds"`
 }
 
 func main() {
@@ -110,6 +113,23 @@ func main() {
 		}(i)
 	}
 	wg.Wait()
+	if debugBranch {
+		type kv struct {
+			k string
+			v int
+		}
+		var l []kv
+		for k, v := range debugCount {
+			l = append(l, kv{k, v})
+		}
+		sort.Slice(l, func(i, j int) bool { return l[i].v > l[j].v })
+		for i, e := range l {
+			if i > 40 {
+				break
+			}
+			fmt.Fprintf(os.Stderr, "%6d %s\n", e.v, e.k)
+		}
+	}
 	enc, _ := json.MarshalIndent(results, "", " ")
 	if *out == "" {
 		os.Stdout.Write(enc)
@@ -190,6 +210,10 @@ func runJob(prog *ssa.Program, pkgs map[string]*ssa.Package, job Job, verbose bo
 	res := &JobResult{Job: job}
 	opt := Options{MaxSteps: job.MaxSteps, MaxPaths: job.MaxPaths, MaxEnum: job.MaxEnum, MaxViolations: job.MaxViol,
 		LoopCap: job.LoopCap, Stubs: job.Stubs, Params: job.Params, Verbose: verbose}
+	opt.UFMul = job.UFMul
+	if job.MaxSec > 0 {
+		opt.Deadline = start.Add(time.Duration(job.MaxSec) * time.Second)
+	}
 	if opt.MaxSteps == 0 {
 		opt.MaxSteps = 2000000
 	}
@@ -263,6 +287,7 @@ func runJob(prog *ssa.Program, pkgs map[string]*ssa.Package, job Job, verbose bo
 		res.Inconclusive = []string{}
 	}
 	res.Reach = ex.Reach
+	res.QKinds = ex.QKinds
 	res.Samples = ex.Samples
 	if res.Samples == nil {
 		res.Samples = []map[string]interface{}{}
